@@ -24,14 +24,35 @@ def _col(i):
     return chr(64 + i)
 
 
-def render(o):
-    """(formula text, inputs) of an obligation."""
+def _whole(v):
+    return v.get('k') == 'n' and v['d'] == 1 and not v.get('e', 0)
+
+
+def has_whole(o):
+    """Some whole number among the directly typed values / the referenced cells."""
+    for a in o['args']:
+        if a['f'] == 'v':
+            if _whole(a['v']):
+                return True
+        elif a['f'] == 'r' and any(_whole(x) for r in a['v']['rows'] for x in r):
+            return True
+    return False
+
+
+def render(o, floats=False):
+    """(formula text, inputs) of an obligation.  floats: whole numbers are typed 2.0 and
+    referenced cells hold floats (a file gives either an int or a float)."""
     import schedula as sh
     parts, inputs = [], {}
     row = 1
     for a in o['args']:
         if a['f'] == 'v':
-            parts.append(V.lit(a['v']))
+            t = V.lit(a['v'])
+            if floats and _whole(a['v']):
+                t = t + '.0' if not t.startswith('(') else t
+                if t.startswith('-'):
+                    t = '(%s)' % t
+            parts.append(t)
             continue
         rows = a['v']['rows']
         if a['f'] == 'a':
@@ -49,7 +70,10 @@ def render(o):
                     line.append(sh.EMPTY)
                 else:
                     cv = V.cellval(x)
-                    line.append(cv[0][0] if isinstance(cv, list) else cv)
+                    cv = cv[0][0] if isinstance(cv, list) else cv
+                    if floats and isinstance(cv, int) and not isinstance(cv, bool):
+                        cv = float(cv)
+                    line.append(cv)
             vals.append(line)
         inputs[ref] = vals
         parts.append(ref)
@@ -60,8 +84,13 @@ def render(o):
 def _shard(items):
     impl.F()
     res = []
+    work = []
     for o in items:
-        formula, inputs = render(o)
+        work.append((o, False))
+        if has_whole(o):
+            work.append((o, True))
+    for o, floats in work:
+        formula, inputs = render(o, floats)
         ref = 'Z90'
         if o['exp'].get('k') == 'a':
             # an array result is observed over a destination range of its own shape
@@ -118,8 +147,17 @@ def main():
         obl.extend(part)
     rnd = random.Random(seed() * 31 + 5)
     rnd.shuffle(obl)
+    # every case of one function in one process (in shuffled order): what one call leaves
+    # behind - a memo keyed by == that takes 1 for TRUE - shows in the next
+    by_fn = {}
+    for o in obl:
+        by_fn.setdefault(o['fn'], []).append(o)
+    groups = sorted(by_fn.values(), key=len, reverse=True)
+    bins = [[] for _ in range(NCPU * 4)]
+    for g_ in groups:
+        min(bins, key=len).extend(g_)
     res = []
-    for part in pmap(_shard, shards(obl, NCPU * 4), chunk=1):
+    for part in pmap(_shard, [b for b in bins if b], chunk=1):
         res.extend(part)
     for fn, formula, inp, ok, want, got, o in res:
         rep.count()
